@@ -2915,8 +2915,11 @@ def convert_conv_groups(op: Operation, arch, nng):
             # across all of the convolution groups
             conv_group_op_weights_shape = op.weights.shape[:-1] + [num_filters_cg]
             conv_group_op_weights_quant = op.weights.quantization.clone()
-            conv_group_op_weights_quant.scale_f32 = op.weights.quantization.scale_f32[..., cg_oc_start:cg_oc_end]
-            conv_group_op_weights_quant.zero_point = op.weights.quantization.zero_point[..., cg_oc_start:cg_oc_end]
+            # (per-tensor quantisation is stored as scalars: only per-channel vectors are split)
+            if np.ndim(op.weights.quantization.scale_f32) > 0:
+                conv_group_op_weights_quant.scale_f32 = op.weights.quantization.scale_f32[..., cg_oc_start:cg_oc_end]
+            if np.ndim(op.weights.quantization.zero_point) > 0:
+                conv_group_op_weights_quant.zero_point = op.weights.quantization.zero_point[..., cg_oc_start:cg_oc_end]
             conv_group_op.add_input_tensor(
                 create_const_tensor(
                     f"{op.weights.name}_cg{i}",
@@ -2934,8 +2937,10 @@ def convert_conv_groups(op: Operation, arch, nng):
             else:
                 conv_group_op_bias_shape = op.bias.shape[:-1] + [num_filters_cg]
                 conv_group_op_bias_quant = op.bias.quantization.clone()
-                conv_group_op_bias_quant.scale_f32 = op.bias.quantization.scale_f32[..., cg_oc_start:cg_oc_end]
-                conv_group_op_bias_quant.zero_point = op.bias.quantization.zero_point[..., cg_oc_start:cg_oc_end]
+                if np.ndim(op.bias.quantization.scale_f32) > 0:
+                    conv_group_op_bias_quant.scale_f32 = op.bias.quantization.scale_f32[..., cg_oc_start:cg_oc_end]
+                if np.ndim(op.bias.quantization.zero_point) > 0:
+                    conv_group_op_bias_quant.zero_point = op.bias.quantization.zero_point[..., cg_oc_start:cg_oc_end]
                 conv_group_op.add_input_tensor(
                     create_const_tensor(
                         f"{op.bias.name}_cg{i}",
